@@ -69,7 +69,7 @@ theorem rep_new (ix : Bytes → Nat) : Rep cmp DB.new MemDB.DB.empty ix := by
 
 /-- `Reset` never panics on a represented table and yields a representation of the empty table -/
 theorem reset_sim {a : DB} {d : MemDB.DB} {ix : Bytes → Nat} (r : Rep cmp a d ix) :
-    ∃ a', reset a = some a' ∧ Rep cmp a' (MemDB.reset d) ix := by
+    ∃ a', reset a = some a' ∧ Rep cmp a' (MemDB.reset d) ix ∧ a'.gen = a.gen + 1 := by
   have hsz : nNext + tMaxHeight ≤ a.nodeData.size := by have := r.fuel; omega
   have e4 := nNext_eq
   have e0 := nKV_eq
@@ -88,7 +88,8 @@ theorem reset_sim {a : DB} {d : MemDB.DB} {ix : Bytes → Nat} (r : Rep cmp a d 
   obtain ⟨n4, w4⟩ := wr_some (a := n3) (i := nHeight) tMaxHeight (by omega)
   obtain ⟨_, s4, _⟩ := wr_eq_some w4
   obtain ⟨nd', pn', hl, z1, z2, z3⟩ := resetLoop_spec tMaxHeight n4 a.prevNode 0 (by omega) (by rw [r.pn]; omega)
-  refine ⟨{ kvData := #[], nodeData := nd', prevNode := pn', maxHeight := 1, n := 0, kvSize := 0 }, ?_, ?_⟩
+  refine ⟨{ kvData := #[], nodeData := nd', prevNode := pn', maxHeight := 1, n := 0, kvSize := 0,
+            gen := a.gen + 1 }, ?_, ?_, rfl⟩
   · unfold reset
     have : ¬ a.nodeData.size < nNext + tMaxHeight := by omega
     simp only [this, if_false, w1, w2, w3, w4, hl, Option.bind_some, Option.bind_eq_bind, Option.pure_def]
